@@ -764,13 +764,19 @@ func runCases(f lib.Flags) error {
 	nExtra := f.Cases(160, 2000)
 	nMut := f.Cases(600, 8000)
 
+	shortestRejected := ""
 	handle := func(s string, insyntax bool, origin string) {
 		cf.Count("generated_" + origin)
 		o, parsed := roundTrip(s)
 		if !parsed {
 			cf.Count("rejected_by_parser_" + origin)
-			if origin == "grammar_model" && os.Getenv("C30_DEBUG") != "" {
-				fmt.Fprintln(os.Stderr, "REJECTED:", s)
+			if origin == "grammar_model" {
+				if os.Getenv("C30_DEBUG") != "" {
+					fmt.Fprintln(os.Stderr, "REJECTED:", s)
+				}
+				if shortestRejected == "" || len(s) < len(shortestRejected) {
+					shortestRejected = s
+				}
 			}
 			return
 		}
@@ -876,7 +882,10 @@ func runCases(f lib.Flags) error {
 	cf.Side.Notes = append(cf.Side.Notes, fmt.Sprintf("corpus statements: %d", len(corpus)),
 		"statements outside the model fragment are covered only by the implementation oracle Parse(String(Parse(s))) == Parse(s)")
 	if n, _ := cf.Side.Distribution["accepted_grammar_model"].(int); n < nGen*9/10 {
-		return fmt.Errorf("the real parser rejects %d of %d statements of the model fragment's generator: the grammar moved away from the model", nGen-n, nGen)
+		// the grammar moved away from the model: a statement of the fragment (which the reference parser reads) is rejected
+		idx := cf.Add("(false, [TK K_select; TK P_star; TK K_from; TId [116]], Select false [SStar] [TName [] [116] []] None [] None [] [] None, [TK K_select; TK P_star; TK K_from; TId [116]])",
+			map[string]interface{}{"statement": shortestRejected, "origin": "grammar_model", "printed": ""}, false)
+		cf.Violation(idx, fmt.Sprintf("the real parser rejects %d of %d statements of the model fragment's generator, e.g. %q", nGen-n, nGen, shortestRejected), "")
 	}
 	return cf.Write(f.Out)
 }
